@@ -436,11 +436,14 @@ MeshIdx(id, v) == Cardinality({w \in MeshOf(id) : w < v})
 MeshSupp(id, i) == <<MeshIdx(id, Supp(id, i)[1]), MeshIdx(id, Supp(id, i)[2])>>
 SparsityCode(id1, id2) ==
   LET n1 == NumDofs(id1)
+      ms1 == [j \in 1..n1 |-> MeshSupp(id1, j - 1)]
       row(i) == LET s2 == MeshSupp(id2, i)
-                    j0 == Cardinality({j \in 0..(n1 - 1) : MeshSupp(id1, j)[2] <= s2[1]})
-                IN {j \in j0..(n1 - 1) : \A q \in j0..j : Overlap(s2, MeshSupp(id1, q))}
+                    j0 == Cardinality({j \in 1..n1 : ms1[j][2] <= s2[1]})          \* searchsorted(.., side='right')
+                    hit == [j \in 1..n1 |-> Overlap(s2, ms1[j])]
+                IN {j - 1 : j \in {q \in (j0 + 1)..n1 : \A r \in (j0 + 1)..q : hit[r]}}  \* while j < n and intersect
   IN UNION {{<<i, j>> : j \in row(i)} : i \in 0..(NumDofs(id2) - 1)}
-InitKV == /\ st \in KVIds \X KVIds /\ pc = "kv" /\ lower = FALSE
+KVUse == IF Alpha = "reduced" THEN {id \in KVIds : id[1] \in 1..2} ELSE KVIds
+InitKV == /\ st \in KVUse \X KVUse /\ pc = "kv" /\ lower = FALSE
           /\ cur = <<>> /\ bi = <<>> /\ bj = <<>> /\ kk = 0 /\ out = <<>>
 KVSameMeshOK == (Mode = "kv" /\ MeshOf(st[1]) = MeshOf(st[2])) => SparsityCode(st[1], st[2]) = SparsityIJ(st[1], st[2])
 KVAnyMeshOK  == (Mode = "kv") => SparsityCode(st[1], st[2]) = SparsityIJ(st[1], st[2])     \* negative control
